@@ -18,7 +18,9 @@ CONSTANTS MaxEntries, MaxDeps, Mode   \* Mode = "structured" | "strings"
 VARIABLE x
 
 \* names as compilers write them, incl. Windows-style ones (a colon inside a path, backslashes)
-Names   == {"a.h", "d/b.h", "C:/w.h", "e\\f.h"}
+\* (~A ~a ~g stand for the characters U+00C5, U+00E0, U+516C, whose UTF-8 encodings contain the
+\* bytes 0x85 and 0xA0; the replay writes the real characters)
+Names   == {"a.h", "d/b.h", "C:/w.h", "e\\f.h", "~Ac~a~g.h"}
 Targets == {"o.o", "q/p.o"}
 
 RECURSIVE SeqsUpTo(_, _)
@@ -30,7 +32,7 @@ Files   == SeqsUpTo(Entries, MaxEntries) \ {<<>>}
 
 Gaps == {" ", "   ", " \\\n  ", "\\\n "}
 \* (a line of nothing but spaces is a blank line too; so is one after the last entry)
-Choices == [colon : {"", "  "}, gap : Gaps, blank : {"", "\n", "  \n"}, final : {"\n", "", "\n  \n", "  \n   "}]
+Choices == [colon : {"", "  "}, gap : Gaps, blank : {"", "\n", "  \n"}, final : {"\n", "", "\n  \n"}]
 
 RECURSIVE Join(_, _)
 Join(ds, gap) == IF ds = <<>> THEN "" ELSE gap \o Head(ds) \o Join(Tail(ds), gap)
